@@ -5,12 +5,12 @@ import SFModel.Drv.Blocks
 namespace SF.Drv
 open SF SExp
 
-def gval? : SExp → Option (GVal String)
+private def gval? : SExp → Option (GVal String)
   | .atom "F" => some none
   | .list xs => (xs.mapM atom?).map some
   | _ => none
 
-def gop? : SExp → Option (GOp String)
+private def gop? : SExp → Option (GOp String)
   | .list [.atom "setitem", .atom k, v] => (gval? v).map (.setitem k)
   | .list [.atom "extseries", .atom k, .list vs] => (vs.mapM atom?).map (.extendSeries k)
   | .list [.atom "extframe", .list ls, .list bs] => do
@@ -23,7 +23,7 @@ def gop? : SExp → Option (GOp String)
       pure (.extendItems ps)
   | _ => none
 
-def cref? : SExp → Option CRef
+private def cref? : SExp → Option CRef
   | .list [c, d, g] => do
       let c ← nat? c; let d ← nat? d; let g ← bool? g
       pure ⟨c, d, g⟩
